@@ -1,6 +1,7 @@
 package prefilter
 
 import (
+	"bytes"
 	"github.com/coregx/ahocorasick"
 	"github.com/coregx/coregex/literal"
 )
@@ -22,8 +23,28 @@ type AhoCorasickPrefilter struct {
 	minLen   int
 }
 
+// HasNestedLiteral reports whether some pattern occurs inside another one at an
+// offset > 0 ("bcd" in "abcde"). The Aho-Corasick automaton reports the
+// occurrence that ends first; for such a set that is not the occurrence that
+// begins first, so its positions are neither the smallest candidate position
+// nor the leftmost-first match.
+func HasNestedLiteral(patterns [][]byte) bool {
+	for i, outer := range patterns {
+		for j, inner := range patterns {
+			if i == j || len(inner) == 0 || len(inner) >= len(outer) {
+				continue
+			}
+			if bytes.Contains(outer[1:], inner) {
+				return true
+			}
+		}
+	}
+	return false
+}
+
 // newACPrefilter builds an Aho-Corasick prefilter from a literal sequence.
-// Returns nil if construction fails.
+// Returns nil if construction fails or if the automaton cannot report the
+// smallest position for this set (see HasNestedLiteral).
 func newACPrefilter(seq *literal.Seq) Prefilter {
 	patterns := make([][]byte, seq.Len())
 	minLen := int(^uint(0) >> 1) // MaxInt
@@ -32,6 +53,9 @@ func newACPrefilter(seq *literal.Seq) Prefilter {
 		if len(patterns[i]) < minLen {
 			minLen = len(patterns[i])
 		}
+	}
+	if HasNestedLiteral(patterns) {
+		return nil
 	}
 
 	ac, err := ahocorasick.NewBuilder().
